@@ -582,6 +582,128 @@ std::string runSched(const std::vector<std::string>& t)
 }
 
 // ------------------------------------------------------------------------------------------------------------------
+// nest <seed> n <transports> p <ops…>: ONE application thread, SEVERAL real Transports (each over its own scripted engine), nested
+// setReadMode(Async) flushes: the per-thread FlushFrame stack across Impl instances (Model/FlushFrames.lean).
+//   f<k>  put a fresh session of transport k into Sync mode with one buffered chunk and flush it (setReadMode(Async)); the data
+//         callback of that flush executes the ops that follow, up to the matching `e`
+//   e     the callback returns
+//   r<k>  drop the LAST reference of transport k (inside whatever callbacks are running)
+// Runs under DetSched with a single managed thread: a destructor that waits for its own flush is a DEADLOCK, reported with the
+// steps executed so far. A sentinel captured by each transport's close callback dies with its Impl (`del:k`).
+struct NestWorld
+{
+  std::vector<std::shared_ptr<Transport>> T;
+  std::vector<vh::FakeEngine*> eng;
+  std::vector<std::shared_ptr<std::atomic<bool>>> gone;
+  std::vector<char> reported;
+  std::vector<std::string> ops;
+  std::size_t idx = 0;
+  SessionId nextSid = 1000;
+  std::vector<std::string> steps;
+  std::vector<int> cbRan;      // per active flush (innermost last): did its data callback run?
+};
+
+std::string nestDels(NestWorld* w)
+{
+  std::string o;
+  for (std::size_t k = 0; k < w->gone.size(); ++k)
+    if (!w->reported[k] && w->gone[k]->load()) { w->reported[k] = 1; o += (o.empty() ? "" : ";") + std::string("del:") + std::to_string(k); }
+  return o;
+}
+
+void nestRun(NestWorld* w)
+{
+  while (w->idx < w->ops.size())
+  {
+    std::string op = w->ops[w->idx++];
+    if (op == "e") return;
+    u64 k = 0;
+    if (op.size() < 2 || !vh::parseNat(op.substr(1), k) || k >= w->T.size()) { w->steps.push_back("bad-op=>-"); continue; }
+    if (op[0] == 'f')
+    {
+      Transport* raw = w->T[k].get();
+      if (!raw) { w->steps.push_back("push," + std::to_string(k) + "=>no-transport"); continue; }
+      SessionId sid = w->nextSid++;
+      raw->setReadMode(sid, ReadMode::Sync);
+      std::uint8_t d[3] = {1, 2, 3};
+      w->eng[k]->cbs.onData(sid, iora::core::BufferView{d, 3}, std::chrono::steady_clock::now());
+      w->cbRan.push_back(0);
+      bool ok = raw->setReadMode(sid, ReadMode::Async);       // `raw` may be a dead object by the time this returns: nothing of it is used here
+      bool ran = w->cbRan.back() != 0;
+      w->cbRan.pop_back();
+      std::string dels = nestDels(w);
+      w->steps.push_back(std::string(ran ? "pop" : "pop-without-callback") + "=>ret:" + std::to_string(k) + ":" + (ok ? "1" : "0") + (dels.empty() ? "" : ";" + dels));
+    }
+    else if (op[0] == 'r')
+    {
+      if (!w->T[k]) { w->steps.push_back("release," + std::to_string(k) + "=>no-transport"); continue; }
+      std::shared_ptr<Transport> last = std::move(w->T[k]);
+      last.reset();                                            // ~Transport(k) here
+      std::string dels = nestDels(w);
+      w->steps.push_back("release," + std::to_string(k) + "=>" + (dels.empty() ? "" : dels + ";") + "dtor:" + std::to_string(k));
+    }
+    else w->steps.push_back("bad-op=>-");
+  }
+}
+
+std::string runNest(const std::vector<std::string>& t)
+{
+#ifdef TSYNC_NO_DETSCHED
+  return "no-detsched";
+#else
+  u64 seed = 0, n = 0;
+  if (t.size() < 6 || t[2] != "n" || t[4] != "p" || !vh::parseNat(t[1], seed) || !vh::parseNat(t[3], n) || n < 1 || n > 4) return "bad-op";
+  auto* w = new NestWorld();         // leaked on purpose (a dead-locked run abandons its thread inside these objects)
+  for (std::size_t i = 5; i < t.size(); ++i) w->ops.push_back(t[i]);
+  for (u64 k = 0; k < n; ++k)
+  {
+    TransportConfig cfg;
+    cfg.protocol = Protocol::TCP;
+    auto fe = std::make_unique<vh::FakeEngine>();
+    w->eng.push_back(fe.get());
+    w->T.push_back(iora::network::test::TransportEngineInjector::withEngine(std::move(fe), cfg));
+    w->T.back()->start();
+    auto flag = std::make_shared<std::atomic<bool>>(false);
+    w->gone.push_back(flag);
+    w->reported.push_back(0);
+    auto sentinel = std::shared_ptr<void>(nullptr, [flag](void*) { *flag = true; });
+    w->T.back()->onClose([sentinel](SessionId, const TransportErrorInfo&) {});
+    w->T.back()->onData([w, k](SessionId, iora::core::BufferView, std::chrono::steady_clock::time_point) {
+      if (!w->cbRan.empty()) w->cbRan.back() = 1;
+      w->steps.push_back("push," + std::to_string(k) + "=>-");
+      nestRun(w);
+    });
+  }
+  ds::Options opt;
+  opt.timeoutOneIn = 0;
+  opt.spuriousOneIn = 0;
+  opt.maxSteps = 60000;
+  ds::options(opt);
+  ds::init(static_cast<std::uint64_t>(seed));
+  bool leftover = false;
+  bool ok = ds::run([&] {
+    nestRun(w);
+    // what the program did not release is destroyed the ordinary way
+    for (auto& x : w->T) if (x) { x.reset(); leftover = true; }
+  });
+  std::string status = ok ? "ok" : ds::deadlocked() ? "deadlock" : ds::stepLimit() ? "steplimit" : "diverged";
+  std::string out = status + " |";
+  for (auto& s : w->steps) out += " " + s;
+  bool all = true;
+  for (auto& f : w->gone) all = all && f->load();
+  out += std::string(" | allDeleted=") + (all ? "1" : "0");
+  if (!ok)
+  {
+    std::string rep = ds::report();
+    for (char& ch : rep) if (ch == '\n') ch = '/';
+    out += " | " + rep;
+  }
+  (void)leftover;
+  return out;
+#endif
+}
+
+// ------------------------------------------------------------------------------------------------------------------
 // real engines on loopback
 std::shared_ptr<Transport> makeReal(bool udp)
 {
@@ -1041,6 +1163,7 @@ std::string stepOp(const std::vector<std::string>& t)
 {
   if (t.empty()) return "bad-op";
   if (t[0] == "sched") return runSched(t);
+  if (t[0] == "nest") return runNest(t);
   if (t[0] == "storm") return runStorm(t);
   if (t[0] == "cstorm") return runConnectStorm(t);
   if (t[0] == "latch") return runLatch(t);
